@@ -59,6 +59,18 @@ func raceChildMain() {
 		}
 		out.Violations += len(r.Violations)
 	}
+	for i := 0; i < (n+3)/4; i++ {
+		sp := caseSpec{ID: 920000 + i, Mode: "rehs", Producers: []int{4, 1, 8, 2}[i%4], CPInterval: 5, BufSize: 10000, MaxPayload: 256,
+			Seed: seed*1000 + 800 + uint64(i), Rehs: 2, OldClose: []string{"never", "before", "after"}[i%3], PostEntries: 200}
+		r := runCase(sp)
+		out.Cases++
+		out.Applied += r.Applied
+		out.Queued += r.Queued
+		if r.Inconcl != "" {
+			out.Inconcl++
+		}
+		out.Violations += len(r.Violations)
+	}
 	b, _ := json.Marshal(out)
 	fmt.Println("RACECHILD " + string(b))
 }
